@@ -261,6 +261,10 @@ pub fn class_names() -> Vec<String> {
         v.push(format!("a{c}b"));
         v.push(format!("{c}{c}"));
     }
+    // names that look like literals of other types (numbers in several notations, keywords)
+    for n in ["7", "07", "007", "00", "10", "1e3", "1E3", "0x10", "0b1", "1_0", "inf", "NaN", "nan", "infinity", "true", "null", "None", "１"] {
+        v.push(n.to_string());
+    }
     for c in ['_', '-'] {
         v.push(format!("a{c}b"));
         if c == '_' {
@@ -298,6 +302,55 @@ pub fn name_class_sentences() -> Vec<V> {
         out.push(V { term: x.clone(), punct: Some(P::Judgement), stamp: St::Eternal, truth: vec![], budget: None });
         out.push(V { term: x.clone(), punct: Some(P::Question), stamp: St::Present, truth: vec![], budget: Some(vec![]) });
         out.push(V { term: R::atom(Tag::Operator, &n), punct: Some(P::Goal), stamp: St::Fixed(5), truth: vec![1.0, 0.9], budget: Some(vec![0.5, 0.75, 0.4]) });
+    }
+    out
+}
+
+/// Hash twins: distinct terms that `Term::hash` cannot (or can barely) tell apart - the hash
+/// ignores atom kinds and the constructor tags of compounds and statements, so a, #a, (--, a),
+/// (*, a), <a --> b> vs <#a --> b> ... share their hash input. As siblings inside an unordered
+/// constructor they land in the same bucket and are separated by `==` alone.
+pub fn hash_twins() -> Vec<R> {
+    let a = R::word("a");
+    let da = R::atom(Tag::DVar, "a");
+    let b = R::word("b1");
+    vec![
+        a.clone(),
+        da.clone(),
+        R::atom(Tag::IVar, "a"),
+        R::atom(Tag::QVar, "a"),
+        R::atom(Tag::Operator, "a"),
+        R::node(Tag::Neg, vec![a.clone()]),
+        R::node(Tag::Neg, vec![da.clone()]),
+        R::node(Tag::Product, vec![a.clone()]),
+        R::node(Tag::Product, vec![da.clone()]),
+        R::node(Tag::SeqConj, vec![a.clone()]),
+        R::node(Tag::SetExt, vec![a.clone()]),
+        R::node(Tag::SetExt, vec![da.clone()]),
+        R::node(Tag::SetInt, vec![a.clone()]),
+        R::node(Tag::Conj, vec![a.clone()]),
+        R::pair(Tag::Inh, a.clone(), b.clone()),
+        R::pair(Tag::Inh, da.clone(), b.clone()),
+        R::pair(Tag::Impl, a.clone(), b.clone()),
+        R::pair(Tag::Sim, a.clone(), b.clone()),
+        R::pair(Tag::Sim, da.clone(), b.clone()),
+        R::node(Tag::Product, vec![a.clone(), b.clone()]),
+        R::node(Tag::Product, vec![R::node(Tag::Product, vec![a.clone(), b.clone()])]),
+    ]
+}
+
+/// every ordered pair of distinct hash twins as the components of each constructor in `tags`
+pub fn hash_twin_family(tags: &[Tag]) -> Vec<R> {
+    let w = hash_twins();
+    let mut out = vec![];
+    for &t in tags {
+        for i in 0..w.len() {
+            for j in 0..w.len() {
+                if i != j {
+                    out.push(mk2(t, &w[i], &w[j]));
+                }
+            }
+        }
     }
     out
 }
@@ -418,6 +471,7 @@ pub fn u_term(f: &F, tier: Tier) -> Vec<R> {
     out.extend(numeric_terms());
     out.extend(reducible(f));
     out.extend(name_class_terms());
+    out.extend(hash_twin_family(&[Tag::SetExt, Tag::Conj, Tag::IntInt, Tag::Sim]));
     out
 }
 
